@@ -191,24 +191,51 @@ pub struct IssueReq<'a> {
     pub late_marks: usize,
 }
 
+/// The order of calls on the issuer object is a *schedule* derived from the request itself (so a replay of
+/// the case repeats it): the final state of the object is always the one the request describes, but how it
+/// is reached varies - setters in another order, an earlier header / expiry / decoy maximum that the later
+/// call replaces, an `encode()` in between whose result is thrown away. What `encode()` finally returns must
+/// depend on the final state only (`IssuerObj.observe` of `Impl/Objects.lean`, `C14_encode_leaves_object`,
+/// `C14_history`).
 pub fn issue(req: &IssueReq, key: &KeyForEncoding) -> Out<Vec<String>> {
+    let sched = crate::report::hash_of(&json!([req.claims, req.paths, req.decoy, req.exp_in, req.repeats, req.late_marks]));
     guard(|| {
         let mut issuer = Issuer::new(req.claims.clone())?;
         let late = if req.repeats > 1 && req.late_marks > 0 && req.late_marks < req.paths.len() { req.late_marks } else { req.paths.len() };
-        for p in &req.paths[..late] {
-            issuer.disclosable(p);
+        let prelude = sched % 3 == 1;
+        let reversed = (sched / 3) % 3 == 1;
+        if prelude {
+            // values that the calls below replace
+            if let Some(h) = &req.header {
+                let mut other = Header::new(h.alg.clone());
+                other.typ = Some("earlier+typ".to_string());
+                other.kid = Some("earlier-kid".to_string());
+                other.cty = Some("earlier/cty".to_string());
+                issuer.header(other);
+            }
+            if req.exp_in.is_some() { issuer.expires_in_seconds(86_400 * 365); }
+            if req.decoy.is_some() { issuer.decoy(40); }
+            if (sched / 9) % 2 == 0 {
+                // an issuance before the object is fully configured: nothing of it may stick
+                let _ = issuer.encode(key);
+            }
         }
-        if let Some(n) = req.decoy {
-            issuer.decoy(n);
-        }
-        if let Some(c) = req.cnf {
-            issuer.require_key_binding(Jwk::from_value(c.clone())?);
-        }
-        if let Some(h) = &req.header {
-            issuer.header(h.clone());
-        }
-        if let Some(n) = req.exp_in {
-            issuer.expires_in_seconds(n);
+        let set_paths = |issuer: &mut Issuer| { for p in &req.paths[..late] { issuer.disclosable(p); } };
+        let set_decoy = |issuer: &mut Issuer| { if let Some(n) = req.decoy { issuer.decoy(n); } };
+        let set_header = |issuer: &mut Issuer| { if let Some(h) = &req.header { issuer.header(h.clone()); } };
+        let set_exp = |issuer: &mut Issuer| { if let Some(n) = req.exp_in { issuer.expires_in_seconds(n); } };
+        if reversed {
+            set_exp(&mut issuer);
+            set_header(&mut issuer);
+            if let Some(c) = req.cnf { issuer.require_key_binding(Jwk::from_value(c.clone())?); }
+            set_decoy(&mut issuer);
+            set_paths(&mut issuer);
+        } else {
+            set_paths(&mut issuer);
+            set_decoy(&mut issuer);
+            if let Some(c) = req.cnf { issuer.require_key_binding(Jwk::from_value(c.clone())?); }
+            set_header(&mut issuer);
+            set_exp(&mut issuer);
         }
         let mut outs = Vec::new();
         let n = req.repeats.max(1);
@@ -258,14 +285,30 @@ pub struct KbParams<'a> {
     pub alg: Algorithm,
 }
 
+/// As for `issue`: the calls on the holder object follow a schedule derived from the request. The set of
+/// redacted paths and the key-binding parameters are always those of the request; `key_binding` may come
+/// before, between or after the `redact` calls, the `redact` calls may come in another order, and a `build()`
+/// whose result is thrown away may come in between. What the final `build()` returns must depend on the
+/// final state only (`C09_build_history`).
 pub fn holder_present(token: &str, redact: &[String], kb: Option<&KbParams>, builds: usize) -> Out<Vec<String>> {
+    let sched = crate::report::hash_of(&json!([redact, kb.map(|k| k.aud), builds, token.len() % 7]));
     guard(|| {
         let mut holder = Holder::presentation(token)?;
-        for r in redact {
-            holder.redact(r)?;
-        }
-        if let Some(kb) = kb {
-            holder.key_binding(kb.aud, kb.key, kb.alg.clone())?;
+        let mut order: Vec<&String> = redact.iter().collect();
+        if sched % 2 == 1 { order.reverse(); }
+        if !order.is_empty() { let k = (sched / 2) as usize % order.len(); order.rotate_left(k); }
+        // where `key_binding` goes: 0 = after all redactions, 1 = before all, 2 = in the middle
+        let kb_at = match (sched / 16) % 3 { 0 => order.len(), 1 => 0, _ => order.len() / 2 };
+        let early_build_at = if (sched / 64) % 3 == 0 { Some((sched / 256) as usize % (order.len() + 1)) } else { None };
+        for i in 0..=order.len() {
+            if i == kb_at {
+                if let Some(kb) = kb { holder.key_binding(kb.aud, kb.key, kb.alg.clone())?; }
+            }
+            if early_build_at == Some(i) {
+                // a presentation built before the selection is complete: nothing of it may stick
+                let _ = holder.build();
+            }
+            if i < order.len() { holder.redact(order[i])?; }
         }
         let mut outs = Vec::new();
         for _ in 0..builds.max(1) {
